@@ -114,32 +114,40 @@ def gcp_predicate(x, g, lb, ub, B, xc, rel: float = 1e-9) -> Tuple[bool, str, di
     z = xc - x
     gn2 = float(g @ g)
     Bn = float(np.linalg.norm(B, 2))
-    # recover t* from the components that are still moving at x_c
+    # recover t*: candidates are the values implied by each component that is still moving at x_c and
+    # every breakpoint value; a component with a tiny gradient determines t only to (ulp of x)/|g|, so the
+    # candidate that reproduces x_c best over *all* components is taken
     moving = (tb > 0) & (g != 0) & ~(((g < 0) & (xc == ub)) | ((g > 0) & (xc == lb)))
+    cands = []
     if np.any(moving):
-        tcand = (x[moving] - xc[moving]) / g[moving]
-        tstar = float(np.median(tcand))
-        scale_t = max(abs(tstar), 1e-300)
-        if np.max(np.abs(tcand - tstar)) > 1e-7 * scale_t + 1e-14 * (1.0 + np.max(np.abs(x[moving]))) / max(np.min(np.abs(g[moving])), 1e-300):
-            return False, "on-path(t-disagree)", {"tcand": tcand.tolist()}
-    else:
-        fin = tb[np.isfinite(tb)]
-        tstar = float(fin.max()) if fin.size else 0.0
-    if tstar < 0:
-        return False, "on-path(t<0)", {"tstar": tstar}
+        cands += ((x[moving] - xc[moving]) / g[moving]).tolist()
+    cands += tb[(tb > 0) & np.isfinite(tb)].tolist()
+    if not cands:
+        cands = [0.0]
+    best = None
+    for tc in cands:
+        if not np.isfinite(tc) or tc < 0:
+            continue
+        pp = path_point(x, g, lb, ub, tc)
+        xs = 1.0 + np.maximum(np.abs(x), np.abs(pp))
+        dv = np.abs(xc - pp)
+        # a variable whose breakpoint coincides with tc may sit on either side of the rounding
+        near = (tb > tc * (1.0 - 1e-7) - 1e-300) & (tb < tc * (1.0 + 1e-7) + 1e-300)
+        dv[near] = np.minimum(dv[near], np.abs(xc - (x - tc * g))[near])
+        score = float(np.max(dv / xs))
+        if best is None or score < best[0]:
+            best = (score, float(tc))
+    if best is None:
+        return False, "on-path(t<0)", {}
+    tstar = best[1]
     info["tstar"] = tstar
-    pp = path_point(x, g, lb, ub, tstar)
-    xs = 1.0 + np.maximum(np.abs(x), np.abs(pp))
+    if best[0] > 1e-7:
+        return False, "on-path", {"dev": best[0], "tstar": tstar}
     # variables whose breakpoint lies clearly before t* must sit exactly on their bound
     clearly = tb <= tstar * (1.0 - 1e-7) - 1e-300
     on_bound = np.where(g < 0, xc == ub, xc == lb)
     if np.any(clearly & (g != 0) & ~on_bound):
         return False, "pinned-exactly", {"idx": np.nonzero(clearly & (g != 0) & ~on_bound)[0].tolist()}
-    near = (tb > tstar * (1.0 - 1e-7) - 1e-300) & (tb < tstar * (1.0 + 1e-7) + 1e-300)
-    dev = np.abs(xc - pp)
-    dev[near] = np.minimum(dev[near], np.abs(xc - (x - tstar * g))[near])
-    if np.any(dev > 1e-7 * xs * (1.0 + 0.0)):
-        return False, "on-path", {"dev": float(dev.max())}
     if np.any((g == 0) & (xc != x)) or np.any((tb == 0) & (xc != x)):
         return False, "on-path(stationary-variable-moved)", {}
 
